@@ -223,14 +223,14 @@ theorem dbSet_inv {sch : Schema} {s : Sess} (hI : Inv sch s) {o : ObjId} (ho : o
   cases hf : (List.range sch.nattrs).find? (fun a => dbEff sch (s.obj o) rowv u a && (s.obj o).rbits a) with
   | some a0 =>
     simp only [hf]
-    refine ⟨inv_congr (sameKeys_setObj s o _ s.queue ⟨rfl, rfl, rfl, fun _ => rfl⟩) hI, rfl, rfl, by simp [dbObjStop], by simp [dbObjStop]⟩
+    refine ⟨inv_congr (sameKeys_setObj s o _ s.queue ⟨rfl, rfl, rfl, fun _ => rfl⟩) hI, (by first | rfl | trivial), (by first | rfl | trivial), by simp [dbObjStop], by simp [dbObjStop]⟩
   | none =>
     simp only [hf] at hne ⊢
     cases hok : (updKeysGo o (kv sch (s.obj o).vals) (kv sch (dbNewVals sch (s.obj o) rowv u)) (allKeys sch) ⟨s.ixs, [], true⟩).ok with
     | false => simp [hok] at hne
     | true =>
       simp only [if_true]
-      refine ⟨?_, rfl, rfl, by simp [dbObjDb], by simp [dbObjDb]⟩
+      refine ⟨?_, (by first | rfl | trivial), (by first | rfl | trivial), by simp [dbObjDb], by simp [dbObjDb]⟩
       exact inv_updKeys hI ho { dbObjDb sch (s.obj o) rowv u with vals := dbNewVals sch (s.obj o) rowv u } hlive rfl
         (by simpa [dbObjDb] using hlive) s.queue hok
 
@@ -263,24 +263,29 @@ theorem load_inv {sch : Schema} {s : Sess} (hI : Inv sch s) (row : Row) (used : 
     obtain ⟨s1, o⟩ := p
     obtain ⟨hI1, ho, _, _, _, _⟩ := idmapLoaded_inv hI hm
     simp only [hm] at hne ⊢
-    split
-    · exact hI1
-    · rename_i hdel
-      split
-      · exact hI1
-      · have hlive : (s1.obj o).status.isDel = false := by simpa using hdel
-        split
-        · rename_i s2 e hd
-          have hne' : (dbSet sch s1 o (fun a => (row.vals[a]?).getD Slot.notLoaded) u).2 ≠ some .integrity := by
-            rw [hd]; intro h2; simp only [Option.some.injEq] at h2; subst h2
-            simp [hdel, hd] at hne
-          have := (dbSet_inv hI1 ho hlive _ u hne').1
-          rw [hd] at this; exact this
-        · rename_i s2 hd
-          have hne' : (dbSet sch s1 o (fun a => (row.vals[a]?).getD Slot.notLoaded) u).2 ≠ some .integrity := by rw [hd]; simp
-          have h2 := dbSet_inv hI1 ho hlive _ u hne'
-          rw [hd] at h2
-          exact inv_congr (sameKeys_setObj s2 o _ s2.queue (setRbits_same sch _ _)) h2.1
+    cases hdel : (s1.obj o).status.isDel with
+    | true => simp only [if_true]; exact hI1
+    | false =>
+      simp only [hdel, Bool.false_eq_true, if_false] at hne ⊢
+      by_cases hc : (s1.obj o).status = .created
+      · simp only [hc, if_true]; exact hI1
+      · simp only [hc, if_false] at hne ⊢
+        cases hd : dbSet sch s1 o (fun a => (row.vals[a]?).getD Slot.notLoaded) u with
+        | mk s2 e =>
+          simp only [hd] at hne ⊢
+          cases e with
+          | some e =>
+            simp only at hne ⊢
+            have hne' : (dbSet sch s1 o (fun a => (row.vals[a]?).getD Slot.notLoaded) u).2 ≠ some .integrity := by
+              rw [hd]; intro h2; simp only [Option.some.injEq] at h2; subst h2; exact hne rfl
+            have := (dbSet_inv hI1 ho hdel _ u hne').1
+            rw [hd] at this; exact this
+          | none =>
+            simp only
+            have hne' : (dbSet sch s1 o (fun a => (row.vals[a]?).getD Slot.notLoaded) u).2 ≠ some .integrity := by rw [hd]; simp
+            have h2 := dbSet_inv hI1 ho hdel _ u hne'
+            rw [hd] at h2
+            exact inv_congr (sameKeys_setObj s2 o _ s2.queue (setRbits_same sch _ _)) h2.1
 
 /-- a row that was loaded (or unpickled) yields the object the primary-key index holds for the row's primary key -/
 theorem load_yield {sch : Schema} {s : Sess} (hI : Inv sch s) (row : Row) (used : List Nat) (u : Bool) (x : ObjId)
@@ -293,30 +298,31 @@ theorem load_yield {sch : Schema} {s : Sess} (hI : Inv sch s) (row : Row) (used 
     obtain ⟨s1, o⟩ := p
     obtain ⟨hI1, ho, h3, _, h5, _⟩ := idmapLoaded_inv hI hm
     simp only [hm] at h ⊢
-    split
-    · rename_i hdel
-      simp only [hdel, if_true] at h
-      split at h
-      · simp only [Option.some.injEq] at h; subst h; exact ⟨h3, h5⟩
-      · cases h
-    · rename_i hdel
-      simp only [hdel, if_false, Bool.false_eq_true] at h
-      split
-      · rename_i hc; simp [hc] at h
-      · rename_i hc
-        simp only [hc, if_false] at h
-        have hlive : (s1.obj o).status.isDel = false := by simpa using hdel
-        split
-        · rename_i s2 e hd; simp [hd] at h
-        · rename_i s2 hd
-          simp only [hd, Option.some.injEq] at h
-          subst h
-          have hne' : (dbSet sch s1 o (fun a => (row.vals[a]?).getD Slot.notLoaded) u).2 ≠ some .integrity := by rw [hd]; simp
-          obtain ⟨_, _, hpkix, hpk, _⟩ := dbSet_inv hI1 ho hlive _ u hne'
-          rw [hd] at hpkix hpk
-          simp only at hpkix hpk
-          refine ⟨?_, by rw [hpkix]; exact h5⟩
-          simp only [setObj_same, (setRbits_fields _ _).1, hpk, h3]
+    cases hdel : (s1.obj o).status.isDel with
+    | true =>
+      simp only [hdel, if_true] at h ⊢
+      cases u with
+      | true => simp only [if_true, Option.some.injEq] at h; subst h; exact ⟨h3, h5⟩
+      | false => simp at h
+    | false =>
+      simp only [hdel, Bool.false_eq_true, if_false] at h ⊢
+      by_cases hc : (s1.obj o).status = .created
+      · simp [hc] at h
+      · simp only [hc, if_false] at h ⊢
+        cases hd : dbSet sch s1 o (fun a => (row.vals[a]?).getD Slot.notLoaded) u with
+        | mk s2 e =>
+          simp only [hd] at h ⊢
+          cases e with
+          | some e => simp at h
+          | none =>
+            simp only [Option.some.injEq] at h ⊢
+            subst h
+            have hne' : (dbSet sch s1 o (fun a => (row.vals[a]?).getD Slot.notLoaded) u).2 ≠ some .integrity := by rw [hd]; simp
+            obtain ⟨_, _, hpkix, hpk, _⟩ := dbSet_inv hI1 ho hdel _ u hne'
+            rw [hd] at hpkix hpk
+            simp only at hpkix hpk
+            refine ⟨?_, by rw [hpkix]; exact h5⟩
+            simp only [setObj_same, (setRbits_fields _ _).1, hpk, h3]
 
 /-! ## assignment -/
 
@@ -360,18 +366,18 @@ theorem setAttrs_err_same {sch : Schema} {s : Sess} (hI : Inv sch s) (o : ObjId)
   unfold setAttrs at h ⊢
   simp only at h ⊢
   by_cases ho : o ≥ s.n
-  · simp only [ho, if_true]; exact ⟨SameKeys.refl _ _, rfl⟩
+  · simp only [ho, if_true]; exact ⟨SameKeys.refl _ _, (by first | rfl | trivial)⟩
   · simp only [ho, if_false] at h ⊢
     have ho' : o < s.n := Nat.lt_of_not_le ho
     cases hdel : (s.obj o).status.isDel with
-    | true => simp only [if_true]; exact ⟨SameKeys.refl _ _, rfl⟩
+    | true => simp only [if_true]; exact ⟨SameKeys.refl _ _, (by first | rfl | trivial)⟩
     | false =>
       simp only [hdel, Bool.false_eq_true, if_false] at h ⊢
       cases hok : (updKeysGo o (kv sch (s.obj o).vals) (kv sch (chVals (s.obj o) ch)) (allKeys sch) ⟨s.ixs, [], true⟩).ok with
       | true => simp [hok] at h
       | false =>
         simp only [Bool.false_eq_true, if_false]
-        exact ⟨⟨rfl, fun _ => rfl, undo_restores hI ho' hdel _, fun _ _ => ObjSame.refl _ _⟩, rfl⟩
+        exact ⟨⟨rfl, fun _ => rfl, undo_restores hI ho' hdel _, fun _ _ => ObjSame.refl _ _⟩, (by first | rfl | trivial)⟩
 
 /-! ## read, find, proxy: only read bits move -/
 
@@ -647,5 +653,133 @@ theorem saveDeleted_inv {sch : Schema} {s : Sess} (hI : Inv sch s) (o : ObjId) :
           intro e; subst e; simp [Status.isDel] at hl
         simp only [setObj_other _ _ _ _ hxo] at hl hk
         exact hI.key_complete i x v hx hl hk
+
+theorem inv_n_saveCreated (s : Sess) (o : ObjId) (newId : Option Int) : (saveCreated s o newId).1.n = s.n := by
+  unfold saveCreated
+  simp only
+  split
+  · rfl
+  · split
+    · rfl
+    · split
+      · rfl
+      · split
+        · rfl
+        · split
+          · split <;> rfl
+          · rfl
+
+/-! ## the step function as a whole -/
+
+/-- the one failing call that can leave a half-updated index behind: a `load` (`_db_set_`) refused with
+    TransactionIntegrityError (it has no undo list) -/
+def loadConflict (sch : Schema) (s : Sess) : Op → Bool
+  | .load row used u => (load sch s row used u).2.err == some .integrity
+  | _ => false
+
+theorem step_inv {sch : Schema} {s : Sess} (hI : Inv sch s) (op : Op) (hg : loadConflict sch s op = false) :
+    Inv sch (step sch s op) := by
+  unfold step stepR
+  cases op with
+  | create c pk vals lf => exact create_inv hI c pk vals lf
+  | seed c pk => exact seed_inv hI c pk
+  | load row used u =>
+    apply load_inv hI row used u
+    simpa [loadConflict] using hg
+  | setAttrs o ch => exact setAttrs_inv hI o ch
+  | read o a => exact read_inv hI o a
+  | delete o => exact delete_inv hI o
+  | saveCreated o id => exact saveCreated_inv hI o id
+  | saveUpdated o => exact saveUpdated_inv hI o
+  | saveDeleted o => exact saveDeleted_inv hI o
+  | find c pk kw => exact inv_congr (find_same s c pk kw) hI
+  | proxy o => simp only [proxy_state]; exact hI
+
+theorem dbSet_n (sch : Schema) (s : Sess) (o : ObjId) (rowv : Nat → Slot) (u : Bool) : (dbSet sch s o rowv u).1.n = s.n := by
+  unfold dbSet
+  simp only
+  split
+  · rfl
+  · split <;> rfl
+
+theorem idmapLoaded_n {sch : Schema} {s s1 : Sess} {c : Nat} {pk : KeyVal} {o : ObjId}
+    (h : idmapLoaded sch s c pk = .ok (s1, o)) : s.n ≤ s1.n ∧ (s.pkIx.get pk = none → o = s.n ∧ s1.n = s.n + 1) ∧
+      (∀ x, s.pkIx.get pk = some x → o = x ∧ s1.n = s.n) := by
+  unfold idmapLoaded at h
+  cases hg : s.pkIx.get pk with
+  | some x =>
+    simp only [hg] at h
+    refine ⟨?_, fun e => by cases e, ?_⟩
+    · split at h
+      · cases h; exact Nat.le_refl _
+      · split at h
+        · cases h; exact Nat.le_refl _
+        · split at h
+          · cases h
+          · split at h
+            · cases h
+            · cases h; exact Nat.le_refl _
+    · intro x' e
+      cases e
+      split at h
+      · cases h; exact ⟨rfl, rfl⟩
+      · split at h
+        · cases h; exact ⟨rfl, rfl⟩
+        · split at h
+          · cases h
+          · split at h
+            · cases h
+            · cases h; exact ⟨rfl, rfl⟩
+  | none =>
+    simp only [hg] at h
+    cases h
+    exact ⟨Nat.le_succ _, fun _ => ⟨rfl, rfl⟩, fun x e => by cases e⟩
+
+theorem load_n (sch : Schema) (s : Sess) (row : Row) (used : List Nat) (u : Bool) : s.n ≤ (load sch s row used u).1.n := by
+  unfold load
+  cases hm : idmapLoaded sch s row.cls row.pk with
+  | error e => exact Nat.le_refl _
+  | ok p =>
+    obtain ⟨s1, o⟩ := p
+    have h1 := (idmapLoaded_n hm).1
+    simp only
+    split
+    · exact h1
+    · split
+      · exact h1
+      · have := dbSet_n sch s1 o (fun a => (row.vals[a]?).getD Slot.notLoaded) u
+        split
+        · rename_i s2 e hd; rw [hd] at this; simp only at this ⊢; omega
+        · rename_i s2 hd; rw [hd] at this; simp only at this ⊢; omega
+
+/-- objects are never forgotten: the numbering only grows -/
+theorem step_n_le (sch : Schema) (s : Sess) (op : Op) : s.n ≤ (step sch s op).n := by
+  unfold step stepR
+  cases op with
+  | create c pk vals lf =>
+    simp only
+    cases hkt : keyTaken sch s (fun a => Slot.val ((vals[a]?).join)) with
+    | true => rw [create_eq_keyTaken hkt]; exact Nat.le_refl _
+    | false =>
+    cases hpt : pkTaken s pk with
+    | true => rw [create_eq_pkTaken hkt hpt]; exact Nat.le_refl _
+    | false =>
+      cases lf with
+      | true => rw [create_eq_late hkt hpt]; exact Nat.le_refl _
+      | false => rw [create_eq_ok hkt hpt]; exact Nat.le_succ _
+  | seed c pk =>
+    simp only [seed]
+    cases hm : idmapLoaded sch s c pk with
+    | error e => exact Nat.le_refl _
+    | ok p => obtain ⟨s1, o⟩ := p; exact (idmapLoaded_n hm).1
+  | load row used u => exact load_n sch s row used u
+  | setAttrs o ch => simp only [setAttrs]; split; exact Nat.le_refl _; split; exact Nat.le_refl _; split <;> exact Nat.le_refl _
+  | read o a => simp only [read]; split; exact Nat.le_refl _; split; exact Nat.le_refl _; split <;> exact Nat.le_refl _
+  | delete o => simp only [delete]; split; exact Nat.le_refl _; split; exact Nat.le_refl _; split <;> exact Nat.le_refl _
+  | saveCreated o id => exact Nat.le_of_eq ((inv_n_saveCreated s o id).symm)
+  | saveUpdated o => simp only [saveUpdated]; split; exact Nat.le_refl _; split <;> exact Nat.le_refl _
+  | saveDeleted o => simp only [saveDeleted]; split; exact Nat.le_refl _; split <;> exact Nat.le_refl _
+  | find c pk kw => exact Nat.le_of_eq (find_same (sch := sch) s c pk kw).n.symm
+  | proxy o => simp only [proxy_state]; exact Nat.le_refl _
 
 end PonyVerif.Model.KeyIndex
